@@ -6,6 +6,8 @@
 (* ||.  A program is a *panic skeleton*: a well-bracketed list of            *)
 (*   site(c, k)   an operation that fails iff condition wire c is 1          *)
 (*   if(c) .. else .. end      and(c) .. end  (x && y)     or(c) .. end      *)
+(*   match .. arm .. arm .. end   three clauses selected by the wires 1 and 2 *)
+(*   (clause 1 if wire 1, clause 2 if ~wire 1 and wire 2, clause 3 otherwise) *)
 (* Conditions are wire identities: two sites with the same c hit the same    *)
 (* cache entry (that is what gate de-duplication produces for repeated       *)
 (* sub-expressions).  A world w assigns a truth value to every wire; the     *)
@@ -33,6 +35,7 @@ Kinds == {"oob", "div"}
 Alphabet == {[op |-> "site", c |-> c, k |-> k] : c \in Conds, k \in Kinds}
             \cup {[op |-> o, c |-> c, k |-> "-"] : o \in {"if", "and", "or"}, c \in Conds}
             \cup {[op |-> "else", c |-> 0, k |-> "-"], [op |-> "end", c |-> 0, k |-> "-"]}
+            \cup (IF NConds >= 2 THEN {[op |-> "match", c |-> 0, k |-> "-"], [op |-> "arm", c |-> 0, k |-> "-"]} ELSE {})
 
 (* bracket scan: the stack of open constructs <<kind, elseSeen>> after p, or Bad *)
 Bad == << <<"bad", FALSE>> >>
@@ -42,17 +45,39 @@ Scan(p, i, st) ==
     ELSE LET x == p[i] IN
          CASE x.op = "site" -> Scan(p, i + 1, st)
            [] x.op \in {"if", "and", "or"} -> Scan(p, i + 1, Append(st, <<x.op, FALSE>>))
+           [] x.op = "match" -> Scan(p, i + 1, Append(st, <<"match0", FALSE>>))
+           [] x.op = "arm" -> IF st # <<>> /\ st[Len(st)][1] \in {"match0", "match1"}
+                              THEN Scan(p, i + 1, [st EXCEPT ![Len(st)] = <<IF st[Len(st)][1] = "match0" THEN "match1" ELSE "match2", FALSE>>]) ELSE Bad
            [] x.op = "else" -> IF st # <<>> /\ st[Len(st)] = <<"if", FALSE>>
                                THEN Scan(p, i + 1, [st EXCEPT ![Len(st)] = <<"if", TRUE>>]) ELSE Bad
-           [] x.op = "end" -> IF st # <<>> /\ (st[Len(st)][1] = "if" => st[Len(st)][2])
+           [] x.op = "end" -> IF st # <<>> /\ (st[Len(st)][1] = "if" => st[Len(st)][2]) /\ st[Len(st)][1] \notin {"match0", "match1"}
                               THEN Scan(p, i + 1, SubSeq(st, 1, Len(st) - 1)) ELSE Bad
 Open(p) == Scan(p, 1, <<>>)
 (* a prefix that can still be completed within MaxLen (every open if needs else + end) *)
 RECURSIVE Need(_)
-Need(st) == IF st = <<>> THEN 0 ELSE (IF st[Len(st)] = <<"if", FALSE>> THEN 2 ELSE 1) + Need(SubSeq(st, 1, Len(st) - 1))
+Need(st) == IF st = <<>> THEN 0
+            ELSE (IF st[Len(st)] = <<"if", FALSE>> THEN 2 ELSE IF st[Len(st)][1] = "match0" THEN 3 ELSE IF st[Len(st)][1] = "match1" THEN 2 ELSE 1)
+                 + Need(SubSeq(st, 1, Len(st) - 1))
 HasSite(p) == \E i \in 1..Len(p) : p[i].op = "site"
 
 (* ---- oracle: first failing site on the taken path --------------------- *)
+ArmSel(n, w) == IF n = 1 THEN w[1] ELSE IF n = 2 THEN ~w[1] /\ w[2] ELSE ~w[1] /\ ~w[2]
+(* number (2 or 3) of the clause that starts after the `arm` at position i: 1 + the arms of the same match before it *)
+RECURSIVE ArmsBefore(_, _, _)
+ArmsBefore(p, i, depth) ==       \* scanning backwards from i - 1 to the opening `match`
+    IF p[i].op = "end" THEN ArmsBefore(p, i - 1, depth + 1)
+    ELSE IF p[i].op \in {"if", "and", "or"} THEN ArmsBefore(p, i - 1, depth - 1)
+    ELSE IF p[i].op = "match" THEN (IF depth = 0 THEN 0 ELSE ArmsBefore(p, i - 1, depth - 1))
+    ELSE IF p[i].op = "arm" /\ depth = 0 THEN 1 + ArmsBefore(p, i - 1, depth)
+    ELSE ArmsBefore(p, i - 1, depth)
+ArmNo(p, i) == 2 + ArmsBefore(p, i - 1, 0)
+(* does the `end` at position i close a match?  scan backwards to its opener *)
+RECURSIVE OpenerOf(_, _, _)
+OpenerOf(p, i, depth) ==
+    IF p[i].op = "end" THEN OpenerOf(p, i - 1, depth + 1)
+    ELSE IF p[i].op \in {"if", "and", "or", "match"} THEN (IF depth = 0 THEN p[i].op ELSE OpenerOf(p, i - 1, depth - 1))
+    ELSE OpenerOf(p, i - 1, depth)
+IsMatchEnd(p, i) == OpenerOf(p, i - 1, 0) = "match"
 AllTrue(st) == \A i \in 1..Len(st) : st[i]
 RECURSIVE FirstFail(_, _, _, _)
 FirstFail(p, i, w, st) ==
@@ -63,7 +88,10 @@ FirstFail(p, i, w, st) ==
            [] x.op = "and" -> FirstFail(p, i + 1, w, Append(st, w[x.c]))
            [] x.op = "or" -> FirstFail(p, i + 1, w, Append(st, ~w[x.c]))
            [] x.op = "else" -> FirstFail(p, i + 1, w, [st EXCEPT ![Len(st)] = ~@])
-           [] x.op = "end" -> FirstFail(p, i + 1, w, SubSeq(st, 1, Len(st) - 1))
+           [] x.op = "match" -> FirstFail(p, i + 1, w, Append(Append(st, TRUE), w[1]))      \* two entries: (a marker, is the current clause selected)
+           [] x.op = "arm" -> LET n == ArmNo(p, i) IN FirstFail(p, i + 1, w, [st EXCEPT ![Len(st)] = ArmSel(n, w)])
+           [] x.op = "end" -> IF IsMatchEnd(p, i) THEN FirstFail(p, i + 1, w, SubSeq(st, 1, Len(st) - 2))
+                              ELSE FirstFail(p, i + 1, w, SubSeq(st, 1, Len(st) - 1))
 Expected(p) == [w \in Worlds |-> FirstFail(p, 1, w, <<>>)]
 
 (* ---- the machine ------------------------------------------------------- *)
@@ -99,6 +127,7 @@ Site(x) ==
     ELSE /\ rec' = Record(x.c)
          /\ cache' = [c \in DOMAIN cache \cup {x.c} |-> IF c = x.c THEN Record(x.c) ELSE cache[c]]
 MuxRec(c, t, f) == [w \in Worlds |-> IF w[c] THEN t[w] ELSE f[w]]
+MuxRecP(S(_), t, f) == [w \in Worlds |-> IF S(w) THEN t[w] ELSE f[w]]
 MuxCache(c, ct, cf) ==
     IF Scheme = "fixed"
     THEN [k \in DOMAIN ct \cap DOMAIN cf |-> ct[k]]
@@ -117,12 +146,22 @@ Step ==
          [] x.op \in {"if", "and", "or"} ->
                /\ stack' = Append(stack, [op |-> x.op, c |-> x.c, brec |-> rec, bcache |-> cache, trec |-> rec, tcache |-> cache])
                /\ UNCHANGED <<rec, cache>>
+         [] x.op = "match" ->          \* muxed_panic = peek().clone(); panic_before_match = peek().clone()
+               /\ stack' = Append(stack, [op |-> "match", c |-> 1, brec |-> rec, bcache |-> cache, trec |-> rec, tcache |-> cache])
+               /\ UNCHANGED <<rec, cache>>
+         [] x.op = "arm" ->            \* muxed_panic = mux_panic(s, peek(), muxed_panic); next clause starts from panic_before_match
+               LET n == Top.c IN
+               /\ stack' = [stack EXCEPT ![Len(stack)].trec = MuxRecP(LAMBDA w : ArmSel(n, w), rec, Top.trec),
+                                          ![Len(stack)].tcache = MuxCache(1, cache, Top.tcache),
+                                          ![Len(stack)].c = n + 1]
+               /\ rec' = Top.brec /\ cache' = Top.bcache
          [] x.op = "else" ->          \* panic_if_true = replace_panic_with(panic_before_branches)
                /\ stack' = [stack EXCEPT ![Len(stack)].trec = rec, ![Len(stack)].tcache = cache]
                /\ rec' = Top.brec /\ cache' = Top.bcache
          [] x.op = "end" ->
                /\ stack' = Pop
                /\ CASE Top.op = "if" -> rec' = MuxRec(Top.c, Top.trec, rec) /\ cache' = MuxCache(Top.c, Top.tcache, cache)
+                    [] Top.op = "match" -> rec' = MuxRecP(LAMBDA w : ArmSel(3, w), rec, Top.trec) /\ cache' = MuxCache(1, cache, Top.tcache)
                     [] Top.op = "and" -> rec' = MuxRec(Top.c, rec, Top.brec) /\ cache' = MuxCache(Top.c, cache, Top.bcache)
                     [] Top.op = "or" -> rec' = MuxRec(Top.c, Top.brec, rec) /\ cache' = MuxCache(Top.c, Top.bcache, cache)
 Done == phase = "run" /\ pc > Len(prog)
